@@ -75,7 +75,7 @@ static const struct { const char *tok; int bit; } avoid_tokens[] = {
 // message states per target
 enum { ST_NONE = 0, ST_SYNC, ST_MUST, ST_OPT };
 
-static int p_fini_queue, p_stop_window, p_backlog, p_ctl_in_cb, p_thr_nothread_ctl, p_thr_nothread_log, p_cycle2, p_cycle3,
+static int p_fini_queue, p_stop_window, p_backlog, p_ctl_in_cb, p_ctl_refused, p_thr_nothread_ctl, p_thr_nothread_log, p_cycle2, p_cycle3,
 	p_close_busy, p_burst, p_burst_overlap, p_orphaned, p_late_route, p_stale_slot, p_sync, p_async, p_lock_wait_app,
 	p_skipped_avoid, p_skipped_illegal, p_ctl_worker_locked, p_disable_with_queue, p_unthread_with_queue, p_stale_flag,
 	p_start_twice, p_start_late, p_prio_queued, p_prio_live, p_fini_nothread, p_trunc, p_may_drop, p_handoff_in_log,
@@ -137,6 +137,7 @@ static void init(const char *)
 	p_fini_queue = counter_id("probe", "fini_with_nonempty_queue");
 	p_stop_window = counter_id("probe", "stop_requested_while_worker_between_sem_wait_and_lock");
 	p_backlog = counter_id("probe", "backlog_limit_hit_messages_lost_reported");
+	p_ctl_refused = counter_id("probe", "reconfiguration_refused_by_the_library");
 	p_ctl_in_cb = counter_id("probe", "control_call_while_worker_inside_logger_callback");
 	p_thr_nothread_ctl = counter_id("probe", "control_call_on_threaded_target_with_no_thread");
 	p_thr_nothread_log = counter_id("probe", "log_call_to_threaded_target_with_no_thread");
@@ -802,7 +803,7 @@ static void app_op(const Op &op)
 		break; }
 	case K_CTL: {
 		Tgt &T = G.T[t];
-		int which = (int)(op.a[1] < 0 ? 0 : op.a[1] % 10);
+		int which = (int)(op.a[1] < 0 ? 0 : op.a[1] % 12);
 		int64_t v = op.a[2];
 		note_control_start(t, true);
 		ev(206, t, which, v);
@@ -818,6 +819,9 @@ static void app_op(const Op &op)
 		case 7: { qb_log_ctl2_arg_t a; memset(&a, 0, sizeof a); a.s = (v & 1) ? "c16-ident" : "other"; rc = qb_log_ctl2(T.pos, QB_LOG_CONF_IDENT, a); break; }
 		case 8: rc = ctl_i32(T.pos, QB_LOG_CONF_SIZE, 4096); want = -ENOSYS; break;
 		case 9: rc = ctl_i32(T.pos, QB_LOG_CONF_DEBUG, 1); want = -EINVAL; break;
+		// reconfigurations the library must refuse (and leave everything as it was, the logging thread included)
+		case 10: rc = ctl_i32(T.pos, QB_LOG_CONF_MAX_LINE_LEN, QB_LOG_ABSOLUTE_MAX_LEN + 1 + (int32_t)((v < 0 ? 0 : v) % 100000)); want = -EINVAL; count(p_ctl_refused); break;
+		case 11: rc = ctl_i32(T.pos, QB_LOG_CONF_USE_JOURNAL, v & 1); want = rc == -EOPNOTSUPP ? -EOPNOTSUPP : -EINVAL; count(p_ctl_refused); break;
 		}
 		if (rc != want) VFAIL("bad-return", "qb_log_ctl", "qb_log_ctl variant %d on target %d returned %d, expected %d", which, t, rc, want);
 		check_pause_excluded(t, "qb_log_ctl");
@@ -1068,7 +1072,7 @@ static void gen(const char *, RunSpec &spec)
 			if (thr) { memset(&o, 0, sizeof o); o.kind = K_THREADED; o.a[0] = t; o.a[1] = 1; mine.push_back(o); }
 			if (r.chance(1, 2)) { memset(&o, 0, sizeof o); o.kind = K_FORMAT; o.a[0] = t; o.a[1] = (int64_t)r.below(NFMT); mine.push_back(o); }
 			if ((backlog && cyc == 0) || r.chance(1, 5)) { memset(&o, 0, sizeof o); o.kind = K_CTL; o.a[0] = t; o.a[1] = 0; o.a[2] = (backlog && cyc == 0) ? 6 : (int64_t)r.below(7); mine.push_back(o); }
-			if (r.chance(1, 6)) { memset(&o, 0, sizeof o); o.kind = K_CTL; o.a[0] = t; o.a[1] = (int64_t)r.range(1, 9); o.a[2] = (int64_t)r.below(4); mine.push_back(o); }
+			if (r.chance(1, 6)) { memset(&o, 0, sizeof o); o.kind = K_CTL; o.a[0] = t; o.a[1] = (int64_t)r.range(1, 11); o.a[2] = (int64_t)r.below(4); mine.push_back(o); }
 			for (size_t i = mine.size(); i > 1; i--) std::swap(mine[i - 1], mine[r.below(i)]);
 			memset(&o, 0, sizeof o); o.kind = K_OPEN; o.a[0] = t; o.a[1] = r.chance(1, 8) ? 1 : 0;
 			mine.insert(mine.begin(), o);
@@ -1118,7 +1122,7 @@ static void gen(const char *, RunSpec &spec)
 					int t = g.open_target();
 					if (k < 66) { if (t >= 0) g.emit(K_ENABLE, t, !g.a.T[t].enabled || r.chance(1, 5)); }
 					else if (k < 72) { if (t >= 0) g.emit(K_THREADED, t, !g.a.T[t].thr || r.chance(1, 5)); }
-					else if (k < 78) { if (t >= 0) g.emit(K_CTL, t, r.below(10), r.below(8)); }
+					else if (k < 78) { if (t >= 0) g.emit(K_CTL, t, r.below(12), r.below(8)); }
 					else if (k < 83) { if (t >= 0) g.emit(K_FILTER, t, r.below(3), r.chance(3, 4) ? 0 : r.below(3), r.below(4)); }
 					else if (k < 87) { if (t >= 0) g.emit(K_FORMAT, t, r.below(NFMT)); }
 					else if (k < 91) { if (t >= 0) g.emit(K_CLOSE, t); }
